@@ -15,7 +15,9 @@ from . import lib as L
 
 U_SOURCES = ["PdfObject::as_integer", "PdfObject::as_real", "PdfObject::as_i64", "PdfObject::as_f64", "from_str_radix",
              "from_be_bytes", "from_le_bytes", "XRefStream::read_field", "read_field", "str::parse", "core::str::<impl str>::parse",
-             "read_u16", "read_u32", "read_i16", "read_u8"]
+             "read_u16", "read_u32", "read_i16", "read_u8",
+             # entropy-decoded integers of the JBIG2 / CCITT decoders: any value the bit stream encodes
+             "decode_integer_arith", "huffman::HuffmanTable::decode_int", "decode_int", "decode_iaid", "BitstreamReader::read_bits"]
 M_SOURCES = ["len", "capacity", "count", "position", "stream_position", "size_hint", "chars", "bytes", "leading_zeros", "trailing_zeros",
              "count_ones", "as_usize_len"]
 SANITISERS = ["checked_add", "checked_sub", "checked_mul", "checked_div", "checked_rem", "checked_shl", "checked_shr", "checked_neg", "checked_pow",
@@ -51,8 +53,30 @@ class Arith:
             return ("?", None)
         return self._classify_place(fn, pl, depth, seen or set())
 
+    _override = None      # {local: ("B", bound)} while re-evaluating an expression under a guard's constant
+
+    def guard_constants(self, fn, b, op):
+        """constants K2 of dominating ordered comparisons `x <op> K2` whose x is one of the values `op` is computed from:
+        [(local x, K2)]"""
+        g = CF.cfg(fn)
+        roots = self._roots(fn, FL.op_locals(op))
+        out = []
+        for sb in g.dominators(b):
+            for st in fn.blocks[sb][0]:
+                rv = st[2]
+                if rv[0] == "bin" and rv[1] in ("Lt", "Le", "Gt", "Ge"):
+                    for x, y in ((rv[2], rv[3]), (rv[3], rv[2])):
+                        k = FL.op_const(y)
+                        pl = FL.op_place(x)
+                        if isinstance(k, int) and not isinstance(k, bool) and pl is not None and not pl[1] and \
+                                (self._roots(fn, [pl[0]]) & roots):
+                            out.append((pl[0], k))
+        return out
+
     def _classify_place(self, fn, pl, depth, seen):
         l = pl[0]
+        if self._override and not pl[1] and l in self._override:
+            return self._override[l]
         fields = [p for p in pl[1] if isinstance(p, list) and p[0] == "f"]
         if fields and fields[-1][2]:
             base_ty = fn.locals[l].lstrip("&").replace("mut ", "").strip().split("<")[0]
@@ -486,6 +510,32 @@ class Arith:
                         hi = cls[0][1] + cls[1][1]
                     if mx is not None and hi is not None and hi > mx and not (self.guarded(fn, b, ops[0]) or self.guarded(fn, b, ops[1])):
                         verdict, detail = "refuted", "bounded operands [0,%d] %s [0,%d] exceed %s::MAX" % (cls[0][1], opk, cls[1][1], ty)
+                    if opk == "Sub" and cls[0][0] == "K" and cls[1][0] == "B" and ty and ty.startswith("u") and cls[1][1] > cls[0][1]:
+                        if not self.guarded(fn, b, ops[1]):
+                            verdict, detail = "refuted", "constant %d minus a value bounded only by [0,%d] underflows %s" % (cls[0][1], cls[1][1], ty)
+                        else:
+                            # guarded: re-evaluate the subtrahend with each guard constant as the bound of the compared value;
+                            # if even the *largest* guard constant leaves it above the minuend, the guard is too weak
+                            gks = self.guard_constants(fn, b, ops[1])
+                            if gks:
+                                best = None
+                                for gl, k2 in gks:
+                                    # every copy of the compared value gets the bound
+                                    ov = {}
+                                    rts = self._roots(fn, [gl])
+                                    for l2 in range(len(fn.locals)):
+                                        if fn.locals[l2] == fn.locals[gl] and (self._roots(fn, [l2]) & rts) and l2 != FL.op_place(ops[1])[0]:
+                                            ov[l2] = ("B", k2)
+                                    self._override = ov
+                                    try:
+                                        c2 = self.classify(fn, ops[1])
+                                    finally:
+                                        self._override = None
+                                    if c2[0] in ("B", "K") and isinstance(c2[1], int):
+                                        best = c2[1] if best is None else min(best, c2[1])
+                                if best is not None and best > cls[0][1]:
+                                    verdict, detail = "refuted", ("constant %d minus a value that the dominating comparison bounds only by %d "
+                                                                  "underflows %s" % (cls[0][1], best, ty))
                 elif any(c[0] == "?" for c in cls):
                     verdict = "undecided"
                 yield fn, b, kind, cls, verdict, detail
